@@ -115,7 +115,7 @@ pub fn tok_matches(exp: &FTok, got: &LTok) -> Result<(), String> {
         TK::Float => match (as_f64(&e.val), as_f64(&got.val)) {
             (Some(a), Some(b)) => {
                 got.kind == LK::Num
-                    && (a == b || (a == 0.0 && b == 0.0) || (exp.in_ifdata && (a as f32) == (b as f32)))
+                    && (a == b || (a == 0.0 && b == 0.0))
             }
             _ => false,
         },
@@ -161,6 +161,16 @@ pub struct TokenDiff {
 /// C02 oracle: the significant tokens of `flat` (ground truth from the generator, position rule
 /// already applied) against the tokens of the written text.
 pub fn compare_tokens(flat: &Flat, output: &str) -> Result<Vec<LTok>, TokenDiff> {
+    // comments between the items of an IF_DATA payload are not content and are not written back
+    let stripped;
+    let flat = if flat.toks.iter().any(|t| t.in_ifdata && t.tok.kind == TK::Comment) {
+        let mut f = flat.clone();
+        f.toks.retain(|t| !(t.in_ifdata && t.tok.kind == TK::Comment));
+        stripped = f;
+        &stripped
+    } else {
+        flat
+    };
     let out = lex(output).map_err(|e| TokenDiff {
         index: 0,
         msg: format!("output is not lexable: {e}"),
